@@ -25,7 +25,8 @@ if REPO not in sys.path:
 import evid  # noqa: E402
 import pool  # noqa: E402
 
-TYPES = ['none', 'int', 'str', 'dict', 'list_int', 'int_or_none', 'opt_str', 'literal', 'model', 'any']
+TYPES = ['none', 'int', 'str', 'dict', 'list_int', 'int_or_none', 'opt_str', 'literal', 'model', 'any',
+         'list_str', 'dict_str_int', 'dict_str_str', 'opt_int']     # (several parametrisations of one container in one process)
 VALUES = ['none', 'int', 'zero', 'intstr', 'str', 'empty_str', 'float_int', 'float_frac', 'dict_a', 'dict_b', 'dict_ab', 'dict_empty',
           'dict_bad', 'list', 'list_empty', 'list_bad', 'event', 'exc', 'lit_a', 'model_ok']
 
@@ -81,7 +82,8 @@ def run_batch(cases):
         pass
 
     tymap = {'none': None, 'int': int, 'str': str, 'dict': dict, 'list_int': list[int], 'int_or_none': int | None,
-             'opt_str': Optional[str], 'literal': Literal['a', 'b'], 'model': M, 'any': Any}
+             'opt_str': Optional[str], 'literal': Literal['a', 'b'], 'model': M, 'any': Any,
+             'list_str': list[str], 'dict_str_int': dict[str, int], 'dict_str_str': dict[str, str], 'opt_int': Optional[int]}
     out = []
 
     async def one(ci, case):
@@ -241,7 +243,7 @@ def gen_case(rng):
             # values the abstract encoding cannot represent as dict / list are only used where validation rejects or converts them
             if vk == 'model_ok' and ty != 'model':
                 vk = 'dict_a'
-            if vk == 'dict_bad':
+            if vk == 'dict_bad' and ty != 'dict_str_int':
                 vk = 'dict_b'
             if vk == 'list_bad' and ty != 'list_int':
                 vk = 'list'
@@ -347,7 +349,7 @@ def decide(prop, tier, seed, gate, my_thms, known, t0, replay):
     nval = len(cases) - len(violations) - len(diverged)
     samples = [{'case': cases[0], 'model_input': rows[0][0], 'real': rows[0][1]}] if cases else []
     evid.write_evidence(prop, tier, seed, my_thms, t0, evaluations=len(cases), distinct_nontrivial=len(distinct),
-                        rule='random (declared type in none/int/str/dict/list[int]/int|None/Optional[str]/Literal/pydantic model/Any; declared by constructor argument, generic parameter, class field, field overriding an instantiated generic parent, inheritance) x 0-5 handler outcomes '
+                        rule='random (declared type in none/int/str/dict/list[int]/list[str]/dict[str,int]/dict[str,str]/int|None/Optional[str]/Optional[int]/Literal/pydantic model/Any; declared by constructor argument, generic parameter, class field, field overriding an instantiated generic parent, inheritance) x 0-5 handler outcomes '
                              '(20 value kinds incl. coercible, non-conforming, None, events, returned and raised exceptions; shared handler names) x include '
                              'filter (default/all/ints/completed) x raise_if_any x raise_if_none x raise_if_conflicts; all six accessors; '
                              'non-trivial: at least two results; distinct: the case itself',
